@@ -58,6 +58,14 @@ class Target:
                 c.eval_budget = None
                 raise _ctx.Runaway("evaluation budget of the operation exhausted")
         b = c.eval_budgets.get(self.tag)
+        if kind == "post":
+            # a sampler whose proposals have become NaN / inf never accepts again (known finding F3): thousands of
+            # consecutive evaluations at non-finite points end the operation like an exhausted budget does
+            self._nonfinite_run = 0 if np.all(np.isfinite(th)) else getattr(self, "_nonfinite_run", 0) + 1
+            if self._nonfinite_run > 2000 and (b is not None or c.eval_budget is not None):
+                self._nonfinite_run = 0
+                c.eval_budgets[self.tag] = None
+                raise _ctx.Runaway("2000 consecutive posterior evaluations at non-finite points")
         if b is not None:
             c.eval_budgets[self.tag] = b - 1
             if b - 1 < 0:
